@@ -152,3 +152,136 @@ proof fn lemma_skip_scan_step(p: Seq<Result<(Event<'_>, ParserSpan), ScanError>>
                        else { skip_scan(p) == (skip_scan(p.skip(1)).0 + 1, skip_scan(p.skip(1)).1) } },
 {
 }
+
+// ---- representation invariant of the event pump (what next_impl relies on and re-establishes) ----
+
+spec fn is_suffix<A>(small: Seq<A>, big: Seq<A>) -> bool {
+    small.len() <= big.len() && big.skip(big.len() - small.len()) == small
+}
+
+/// open recording frames: small anchor ids, still open, and every inner frame's buffer is a
+/// suffix of the enclosing frame's buffer (whatever was recorded since the inner anchor started was
+/// also recorded for every enclosing anchor) -- the C02 recording invariant
+spec fn frames_ok(fs: Seq<RecFrame<'_>>) -> bool {
+    &&& forall|a: int| 0 <= a < fs.len() ==> (#[trigger] fs[a]).id <= usize::MAX - 8
+    &&& forall|j: int| 0 <= j < fs.len() ==> (#[trigger] fs[j]).depth >= 1 && fs[j].buf@.len() >= 1
+    &&& forall|j: int| 0 <= j < fs.len() - 1 ==> is_suffix((#[trigger] fs[j + 1]).buf@, fs[j].buf@)
+    &&& frames_nested(fs)
+}
+
+spec fn limits_lt_max(b: Budget) -> bool {
+    b.max_events < usize::MAX && b.max_aliases < usize::MAX && b.max_nodes < usize::MAX
+        && b.max_merge_keys < usize::MAX && b.max_documents < usize::MAX && b.max_depth < usize::MAX
+}
+
+spec fn budget_ok(b: BudgetEnforcer) -> bool {
+    b.inv() && within(b.abs(), b.budget, b.per_doc()) && limits_lt_max(b.budget)
+        && (b.per_doc() || b.report.documents < usize::MAX)
+}
+
+/// parser contract: anchor ids are small (they are sequential counters)
+spec fn anchor_ids_small(p: Seq<Result<(Event<'_>, ParserSpan), ScanError>>) -> bool {
+    forall|i: int| 0 <= i < p.len() ==> match #[trigger] p[i] {
+        Ok((Event::Scalar(_, _, id, _), _)) => id <= usize::MAX - 8,
+        Ok((Event::SequenceStart(id, _), _)) => id <= usize::MAX - 8,
+        Ok((Event::MappingStart(id, _), _)) => id <= usize::MAX - 8,
+        Ok((Event::Alias(id), _)) => id <= usize::MAX - 8,
+        _ => true }
+}
+
+impl<'a> LiveEvents<'a> {
+    spec fn live_inv(&self) -> bool {
+        &&& frames_ok(self.rec_stack@)
+        &&& (self.budget is Some ==> budget_ok(self.budget.unwrap()))
+        &&& spans_ok(self.parser.pending()) && anchor_ids_small(self.parser.pending())
+        &&& self.inject@.len() <= self.alias_limits.max_replay_stack_depth
+        &&& self.total_replayed_events <= self.alias_limits.max_total_replayed_events
+    }
+
+    /// "history shorter than 2^64": recording depth counters have room (assumed per call, not proved)
+    spec fn live_room(&self) -> bool {
+        forall|j: int| 0 <= j < self.rec_stack@.len() ==> (#[trigger] self.rec_stack@[j]).depth < usize::MAX
+    }
+}
+
+proof fn lemma_budget_room(b: BudgetEnforcer)
+    requires budget_ok(b),
+    ensures b.room(),
+{
+}
+
+spec fn ids_distinct(fs: Seq<RecFrame<'_>>) -> bool {
+    forall|a: int, b: int| 0 <= a < fs.len() && 0 <= b < fs.len() && a != b ==> (#[trigger] fs[a]).id != (#[trigger] fs[b]).id
+}
+
+proof fn lemma_pending_tail(p: Seq<Result<(Event<'_>, ParserSpan), ScanError>>)
+    requires p.len() > 0, spans_ok(p), anchor_ids_small(p),
+    ensures spans_ok(p.skip(1)), anchor_ids_small(p.skip(1)),
+{
+    assert forall|i: int| 0 <= i < p.skip(1).len() implies p.skip(1)[i] == p[i + 1] by {}
+    assert forall|i: int| 0 <= i < p.skip(1).len() implies match #[trigger] p.skip(1)[i] { Ok((_, sp)) => span_ok(sp), Err(_) => true } by {
+        assert(p.skip(1)[i] == p[i + 1]);
+    }
+    assert forall|i: int| 0 <= i < p.skip(1).len() implies match #[trigger] p.skip(1)[i] {
+        Ok((Event::Scalar(_, _, id, _), _)) => id <= usize::MAX - 8,
+        Ok((Event::SequenceStart(id, _), _)) => id <= usize::MAX - 8,
+        Ok((Event::MappingStart(id, _), _)) => id <= usize::MAX - 8,
+        Ok((Event::Alias(id), _)) => id <= usize::MAX - 8,
+        _ => true } by {
+        assert(p.skip(1)[i] == p[i + 1]);
+    }
+}
+
+proof fn lemma_suffix_push<A>(a: Seq<A>, b: Seq<A>, e: A)
+    requires is_suffix(a, b),
+    ensures is_suffix(a.push(e), b.push(e)),
+{
+    assert(b.push(e).skip(b.push(e).len() - a.push(e).len()) =~= b.skip(b.len() - a.len()).push(e));
+}
+
+/// frames after an event was recorded into every frame (depths may have moved together, staying >= 1 and nested)
+proof fn lemma_frames_all_pushed(fs: Seq<RecFrame<'_>>, gs: Seq<RecFrame<'_>>, e: Ev<'_>)
+    requires
+        frames_ok(fs), gs.len() == fs.len(), frames_nested(gs),
+        forall|j: int| 0 <= j < fs.len() ==> (#[trigger] gs[j]).id == fs[j].id && gs[j].buf@ == fs[j].buf@.push(e) && gs[j].depth >= 1,
+    ensures frames_ok(gs),
+{
+    assert forall|j: int| 0 <= j < gs.len() - 1 implies is_suffix((#[trigger] gs[j + 1]).buf@, gs[j].buf@) by {
+        assert(is_suffix(fs[j + 1].buf@, fs[j].buf@));
+        lemma_suffix_push(fs[j + 1].buf@, fs[j].buf@, e);
+    }
+}
+
+/// ... and a freshly seeded frame [e] on top
+proof fn lemma_frames_with_new(fs: Seq<RecFrame<'_>>, gs: Seq<RecFrame<'_>>, e: Ev<'_>)
+    requires
+        frames_ok(fs), gs.len() == fs.len() + 1,
+        forall|j: int| 0 <= j < fs.len() ==> (#[trigger] gs[j]).id == fs[j].id && gs[j].buf@ == fs[j].buf@.push(e) && gs[j].depth == fs[j].depth + 1,
+        gs[gs.len() - 1].id <= usize::MAX - 8, gs[gs.len() - 1].depth == 1, gs[gs.len() - 1].buf@ == seq![e],
+    ensures frames_ok(gs),
+{
+    let n = fs.len() as int;
+    assert forall|j: int| 0 <= j < gs.len() - 1 implies is_suffix((#[trigger] gs[j + 1]).buf@, gs[j].buf@) by {
+        if j + 1 < n {
+            assert(is_suffix(fs[j + 1].buf@, fs[j].buf@));
+            lemma_suffix_push(fs[j + 1].buf@, fs[j].buf@, e);
+        } else {
+            assert(gs[j].buf@.skip(gs[j].buf@.len() - 1) =~= seq![e]);
+        }
+    }
+    assert forall|a: int, b: int| 0 <= a <= b < gs.len() implies (#[trigger] gs[a]).depth >= (#[trigger] gs[b]).depth by {
+        if b < n { assert(fs[a].depth >= fs[b].depth); }
+    }
+}
+
+/// frames that remain after a container end (bump_depth_on_end's postcondition)
+proof fn lemma_frames_remaining(fs: Seq<RecFrame<'_>>, gs: Seq<RecFrame<'_>>)
+    requires
+        frames_ok(fs), gs.len() <= fs.len(), frames_nested(gs),
+        forall|j: int| 0 <= j < gs.len() ==> (#[trigger] gs[j]).id == fs[j].id && gs[j].buf == fs[j].buf && gs[j].depth >= 1,
+    ensures frames_ok(gs),
+{
+    assert forall|j: int| 0 <= j < gs.len() - 1 implies is_suffix((#[trigger] gs[j + 1]).buf@, gs[j].buf@) by {
+        assert(is_suffix(fs[j + 1].buf@, fs[j].buf@));
+    }
+}
